@@ -73,6 +73,18 @@ pub fn expand_body(x: &X) -> Option<Vec<u8>> {
             }
             Some(out)
         }
+        (3, 4) => {
+            let mut out = expand_body(&X::L(vec![X::N(2), l[1].clone(), l[2].clone()]))?;
+            let d = l[3].as_n()?;
+            if d > 8 {
+                return None;
+            }
+            for i in 0..d {
+                let copy: Vec<u8> = out.iter().map(|b| b ^ (1u8 << i)).collect();
+                out.extend_from_slice(&copy);
+            }
+            Some(out)
+        }
         _ => None,
     }
 }
@@ -90,14 +102,20 @@ fn pref(n: u128) -> Option<comprash::PreferredCompression> {
 struct Page {
     body: Bytes,
     ctype: Option<Vec<u8>>,
+    /// a content-encoding header the handler sets itself
+    hce: Option<Vec<u8>>,
+    status: u16,
     compress: bool,
     cache: bool,
 }
 
 fn page_response(p: &Page) -> FatResponse {
-    let mut b = Response::builder().status(200);
+    let mut b = Response::builder().status(p.status);
     if let Some(ct) = &p.ctype {
         b = b.header("content-type", &ct[..]);
+    }
+    if let Some(ce) = &p.hce {
+        b = b.header("content-encoding", &ce[..]);
     }
     let resp = b.body(p.body.clone()).unwrap();
     FatResponse::new(
@@ -108,11 +126,15 @@ fn page_response(p: &Page) -> FatResponse {
     .with_compress(if p.compress { comprash::CompressPreference::Full } else { comprash::CompressPreference::None })
 }
 
-fn header_list(ae: Option<&X>) -> Option<Vec<X>> {
-    Some(match ae {
+fn header_list(ae: Option<&X>, more: &[X]) -> Option<Vec<X>> {
+    let mut v = match ae {
         Some(v) => vec![X::L(vec![X::b("accept-encoding"), X::b(v.as_b()?)])],
         None => vec![],
-    })
+    };
+    for m in more {
+        v.push(X::L(vec![X::b("accept-encoding"), X::b(m.as_b()?)]));
+    }
+    Some(v)
 }
 
 /// polls all futures in index order until every one has completed (no task is spawned: the
@@ -139,22 +161,25 @@ async fn join_in_order<'a, T>(mut futs: Vec<Pin<Box<dyn Future<Output = T> + 'a>
     out.into_iter().map(Option::unwrap).collect()
 }
 
-fn observe(reply: &kvarn::CacheReply, body: &[u8], first: &mut Vec<(Vec<u8>, Vec<u8>)>) -> X {
+/// the replies already seen, kept alive: (label, body)
+type Seen = Vec<(Vec<u8>, Bytes)>;
+
+fn observe(reply: &kvarn::CacheReply, page: &Page, seen: &mut Seen) -> X {
+    let body = &page.body;
     let status = reply.response.status().as_u16();
-    if status != 200 {
+    if status == 406 {
         return X::L(vec![X::n(status)]);
     }
     let enc = reply.response.headers().get("content-encoding").map(|v| v.as_bytes().to_vec());
     let raw = reply.response.body();
-    let (decoded, ok) = c00pipe::decode_body(enc.as_deref(), raw);
+    // an empty body: nothing to decode, whatever the headers say
+    let (decoded, ok) = if raw.is_empty() { (Vec::new(), true) } else { c00pipe::decode_body(enc.as_deref(), raw) };
     let key = enc.clone().unwrap_or_default();
-    let same = match first.iter().find(|(k, _)| *k == key) {
-        Some((_, r)) => r[..] == raw[..],
-        None => {
-            first.push((key, raw.to_vec()));
-            true
-        }
-    };
+    // the very buffer an earlier reply carried (all earlier replies are kept alive in `seen`, so an equal
+    // address is the same allocation): only asked of compressed bodies
+    let compressed = !raw.is_empty() && matches!(enc.as_deref(), Some(b"gzip") | Some(b"br") | Some(b"zstd"));
+    let reused = compressed && seen.iter().any(|(k, r)| *k == key && r.as_ptr() == raw.as_ptr() && r.len() == raw.len());
+    seen.push((key, raw.clone()));
     X::L(vec![
         X::n(status),
         X::opt(enc.map(X::B)),
@@ -162,8 +187,14 @@ fn observe(reply: &kvarn::CacheReply, body: &[u8], first: &mut Vec<(Vec<u8>, Vec
         X::bool(ok && decoded[..] == body[..] && reply.identity_body[..] == body[..]),
         X::n(if ok { decoded.len() } else { 0 }),
         X::bool(raw[..] == body[..]),
-        X::bool(same),
+        X::bool(reused),
     ])
+}
+
+fn signed(x: &X) -> Option<i32> {
+    let l = x.as_l()?;
+    let v = l.get(1)?.as_n()? as i32;
+    Some(if l.first()?.as_n()? == 1 { -v } else { v })
 }
 
 pub fn pipe(x: &X) -> X {
@@ -172,10 +203,14 @@ pub fn pipe(x: &X) -> X {
         _ => return X::bad(),
     };
     let (c, reqs) = match (l[0].as_l(), l[1].as_l()) {
-        (Some(c), Some(r)) if c.len() == 6 => (c, r),
+        (Some(c), Some(r)) if c.len() == 9 => (c, r),
         _ => return X::bad(),
     };
     let parsed = (|| {
+        let lv = c[8].as_l()?;
+        if lv.len() != 6 {
+            return None;
+        }
         Some((
             expand_body(&c[0])?,
             c[1].as_opt()?.map(|v| v.as_b().map(<[u8]>::to_vec)),
@@ -183,32 +218,57 @@ pub fn pipe(x: &X) -> X {
             c[3].as_bool()?,
             pref(c[4].as_n()?)?,
             pref(c[5].as_n()?)?,
+            c[6].as_opt()?.map(|v| v.as_b().map(<[u8]>::to_vec)),
+            c[7].as_n()? as u16,
+            (signed(&lv[0])?, lv[1].as_n()? as u32, lv[2].as_n()? as u32),
+            (signed(&lv[3])?, lv[4].as_n()? as u32, lv[5].as_n()? as u32),
         ))
     })();
-    let (body, ctype, compress, cache, p1, p2) = match parsed {
+    let (body, ctype, compress, cache, p1, p2, hce, status, lv1, lv2) = match parsed {
         Some(p) => p,
         None => return X::bad(),
     };
-    let ctype = match ctype {
-        Some(Some(v)) => {
-            if HeaderValue::from_bytes(&v).is_err() {
-                return X::L(vec![X::N(96)]);
+    let header_value = |v: Option<Option<Vec<u8>>>| -> Result<Option<Vec<u8>>, X> {
+        match v {
+            Some(Some(v)) => {
+                if HeaderValue::from_bytes(&v).is_err() {
+                    Err(X::L(vec![X::N(96)]))
+                } else {
+                    Ok(Some(v))
+                }
             }
-            Some(v)
+            Some(None) => Err(X::bad()),
+            None => Ok(None),
         }
-        Some(None) => return X::bad(),
-        None => None,
     };
-    let page = Arc::new(Page { body: Bytes::from(body.clone()), ctype, compress, cache });
+    let ctype = match header_value(ctype) {
+        Ok(v) => v,
+        Err(e) => return e,
+    };
+    let hce = match header_value(hce) {
+        Ok(v) => v,
+        Err(e) => return e,
+    };
+    if http::StatusCode::from_u16(status).is_err() {
+        return X::bad();
+    }
+    let page = Arc::new(Page { body: Bytes::from(body), ctype, hce, status, compress, cache });
     let cfg = X::L(vec![
         X::L(vec![X::b("cache"), X::bool(true)]),
         X::L(vec![X::b("same_compress"), X::bool(false)]),
         X::L(vec![X::b("disable_ims"), X::bool(true)]),
     ]);
+    let page_for_handler = Arc::clone(&page);
     let customize = move |_kv: &[(String, X)], host: &mut Host, _sh: &Arc<Shared>| {
         host.compression_options_oneshot.preferred = p1;
+        host.compression_options_oneshot.zstd_level = lv1.0;
+        host.compression_options_oneshot.brotli_level = lv1.1;
+        host.compression_options_oneshot.gzip_level = lv1.2;
         host.compression_options_cached.preferred = p2;
-        let page = Arc::clone(&page);
+        host.compression_options_cached.zstd_level = lv2.0;
+        host.compression_options_cached.brotli_level = lv2.1;
+        host.compression_options_cached.gzip_level = lv2.2;
+        let page = Arc::clone(&page_for_handler);
         host.extensions.add_prepare_single(
             "/p",
             prepare!(_req, _host, _path, _addr, move |page: Arc<Page>| { page_response(page) }),
@@ -218,35 +278,235 @@ pub fn pipe(x: &X) -> X {
         Some(b) => b,
         None => return X::bad(),
     };
-    let res = c00pipe::block_on(async {
-        let host = built.hosts.get_host(&built.host_name)?;
-        let addr = c00pipe::sockaddr(1);
-        let mut first = Vec::new();
-        let mut out = Vec::new();
-        for r in reqs {
+    // groups: (kind, accept-encoding, method, n)
+    let mut groups = Vec::new();
+    for r in reqs {
+        let g = (|| {
             let r = r.as_l()?;
-            let ae = r.get(1)?.as_opt()?;
-            let n = match (r[0].as_n()?, r.len()) {
-                (0, 2) => 1usize,
-                (1, 3) => r[2].as_n()? as usize,
+            if r.len() != 5 {
+                return None;
+            }
+            let method: &'static [u8] = match r[2].as_n()? {
+                0 => b"GET",
+                1 => b"HEAD",
+                2 => b"POST",
                 _ => return None,
             };
-            let hdrs = header_list(ae)?;
+            Some((r[0].as_n()?, header_list(r[1].as_opt()?, r[4].as_l()?)?, method, r[3].as_n()? as usize))
+        })();
+        match g {
+            Some(g) => groups.push(g),
+            None => return X::bad(),
+        }
+    }
+    let spawned = groups.iter().any(|g| g.0 == 2);
+    let rt = if spawned {
+        tokio::runtime::Builder::new_multi_thread().worker_threads(4).enable_all().build().unwrap()
+    } else {
+        tokio::runtime::Builder::new_current_thread().enable_all().build().unwrap()
+    };
+    let hosts = Arc::clone(&built.hosts);
+    let host_name = built.host_name.clone();
+    let res = rt.block_on(async {
+        let host = hosts.get_host(&host_name)?;
+        let addr = c00pipe::sockaddr(1);
+        let mut seen = Seen::new();
+        let mut out = Vec::new();
+        for (kind, hdrs, method, n) in &groups {
             let mut requests = Vec::new();
-            for _ in 0..n {
-                match c00pipe::make_request(&built.host_name, b"GET", b"/p", &hdrs, b"") {
+            for _ in 0..*n {
+                match c00pipe::make_request(&host_name, method, b"/p", hdrs, b"") {
                     Some(q) => requests.push(q),
                     None => return Some(X::L(vec![X::N(96)])),
                 }
             }
-            let futs: Vec<Pin<Box<dyn Future<Output = kvarn::CacheReply> + '_>>> = requests
-                .iter_mut()
-                .map(|q| Box::pin(kvarn::handle_cache(q, addr, host)) as Pin<Box<dyn Future<Output = kvarn::CacheReply> + '_>>)
-                .collect();
-            let replies = join_in_order(futs).await;
-            out.push(X::L(replies.iter().map(|rp| observe(rp, &body, &mut first)).collect()));
+            let replies: Vec<kvarn::CacheReply> = match kind {
+                0 => {
+                    let mut v = Vec::new();
+                    for q in &mut requests {
+                        v.push(kvarn::handle_cache(q, addr, host).await);
+                    }
+                    v
+                }
+                1 => {
+                    let futs: Vec<Pin<Box<dyn Future<Output = kvarn::CacheReply> + '_>>> = requests
+                        .iter_mut()
+                        .map(|q| Box::pin(kvarn::handle_cache(q, addr, host)) as Pin<Box<dyn Future<Output = kvarn::CacheReply> + '_>>)
+                        .collect();
+                    join_in_order(futs).await
+                }
+                2 => {
+                    // real parallelism: one task per request on the worker threads, released together
+                    let barrier = Arc::new(tokio::sync::Barrier::new(requests.len()));
+                    let mut tasks = Vec::new();
+                    for mut q in requests.drain(..) {
+                        let hosts = Arc::clone(&hosts);
+                        let name = host_name.clone();
+                        let barrier = Arc::clone(&barrier);
+                        tasks.push(tokio::spawn(async move {
+                            let host = hosts.get_host(&name).unwrap();
+                            barrier.wait().await;
+                            kvarn::handle_cache(&mut q, addr, host).await
+                        }));
+                    }
+                    let mut v = Vec::new();
+                    for t in tasks {
+                        match t.await {
+                            Ok(r) => v.push(r),
+                            Err(_) => return Some(X::panic()),
+                        }
+                    }
+                    v
+                }
+                _ => return None,
+            };
+            out.push(X::L(replies.iter().map(|rp| observe(rp, &page, &mut seen)).collect()));
         }
         Some(X::L(out))
+    });
+    res.unwrap_or_else(X::bad)
+}
+
+/// neg.stress: (L (N rounds) (N n) (N body_len) (N coding)) -> (L (N anomalies) (N replies) (N wrong replies))
+/// rounds times: a fresh host whose page has a cache entry with cold memo cells (one identity request), then n tasks
+/// released together on a 4-worker runtime ask for the same coding.  Anomaly: a reply that is not 200, does not carry
+/// the label, does not decode to the body, or does not carry the same buffer as the others.
+pub fn stress(x: &X) -> X {
+    let l = match x.as_l() {
+        Some(l) if l.len() == 4 => l,
+        _ => return X::bad(),
+    };
+    let (rounds, n, blen, coding) = match (l[0].as_n(), l[1].as_n(), l[2].as_n(), l[3].as_n()) {
+        (Some(a), Some(b), Some(c), Some(d)) => (a as usize, b as usize, c as usize, d),
+        _ => return X::bad(),
+    };
+    let label: &'static str = match coding {
+        0 => "gzip",
+        1 => "br",
+        2 => "zstd",
+        _ => return X::bad(),
+    };
+    let body: Vec<u8> = (0..blen).map(|i| b"lorem ipsum dolor sit amet "[i % 27]).collect();
+    let rt = tokio::runtime::Builder::new_multi_thread().worker_threads(4).enable_all().build().unwrap();
+    let mut anomalies = 0u128;
+    let mut wrong = 0u128;
+    let mut total = 0u128;
+    for _ in 0..rounds {
+        let page = Arc::new(Page { body: Bytes::from(body.clone()), ctype: Some(b"text/html".to_vec()), hce: None, status: 200, compress: true, cache: true });
+        let cfg = X::L(vec![X::L(vec![X::b("cache"), X::bool(true)]), X::L(vec![X::b("disable_ims"), X::bool(true)])]);
+        let page_for_handler = Arc::clone(&page);
+        let customize = move |_kv: &[(String, X)], host: &mut Host, _sh: &Arc<Shared>| {
+            let page = Arc::clone(&page_for_handler);
+            host.extensions.add_prepare_single("/p", prepare!(_req, _host, _path, _addr, move |page: Arc<Page>| { page_response(page) }));
+        };
+        let built = match c00pipe::build_host(&cfg, Some(&customize)) {
+            Some(b) => b,
+            None => return X::bad(),
+        };
+        let hosts = Arc::clone(&built.hosts);
+        let host_name = built.host_name.clone();
+        let replies: Option<Vec<kvarn::CacheReply>> = rt.block_on(async {
+            let addr = c00pipe::sockaddr(1);
+            {
+                let host = hosts.get_host(&host_name)?;
+                let mut q = c00pipe::make_request(&host_name, b"GET", b"/p", &header_list(Some(&X::b("identity")), &[])?, b"")?;
+                kvarn::handle_cache(&mut q, addr, host).await;
+            }
+            let barrier = Arc::new(tokio::sync::Barrier::new(n));
+            let mut tasks = Vec::new();
+            for _ in 0..n {
+                let hosts = Arc::clone(&hosts);
+                let name = host_name.clone();
+                let barrier = Arc::clone(&barrier);
+                let mut q = c00pipe::make_request(&host_name, b"GET", b"/p", &header_list(Some(&X::b(label)), &[])?, b"")?;
+                tasks.push(tokio::spawn(async move {
+                    let host = hosts.get_host(&name).unwrap();
+                    barrier.wait().await;
+                    kvarn::handle_cache(&mut q, addr, host).await
+                }));
+            }
+            let mut v = Vec::new();
+            for t in tasks {
+                match t.await {
+                    Ok(r) => v.push(r),
+                    Err(e) => {
+                        if let Ok(p) = e.try_into_panic() {
+                            let msg = p.downcast_ref::<String>().cloned().or_else(|| p.downcast_ref::<&str>().map(|s| s.to_string()));
+                            eprintln!("neg.stress: task panicked: {:?}", msg);
+                        }
+                        return None;
+                    }
+                }
+            }
+            Some(v)
+        });
+        let replies = match replies {
+            Some(r) => r,
+            None => return X::panic(),
+        };
+        let first = replies[0].response.body().clone();
+        for r in &replies {
+            total += 1;
+            let enc = r.response.headers().get("content-encoding").map(|v| v.as_bytes().to_vec());
+            let raw = r.response.body();
+            let (decoded, ok) = c00pipe::decode_body(enc.as_deref(), raw);
+            if r.response.status() != 200 || enc.as_deref() != Some(label.as_bytes()) || !ok || decoded[..] != body[..] {
+                anomalies += 1;
+                wrong += 1;
+            } else if raw.as_ptr() != first.as_ptr() || raw.len() != first.len() {
+                // decodes, but is another buffer than the first reply's: the cell was written more than once
+                anomalies += 1;
+            }
+        }
+    }
+    X::L(vec![X::N(anomalies), X::N(total), X::N(wrong)])
+}
+
+/// neg.stream: (L (L [accept-encoding]) (N with_len)) -> (L (N status) (N future kept) (L [content-encoding]) (N body len))
+/// a handler whose response carries a future (a streaming response): handle_cache never exchanges it for a 406
+pub fn stream(x: &X) -> X {
+    let l = match x.as_l() {
+        Some(l) if l.len() == 2 => l,
+        _ => return X::bad(),
+    };
+    let (ae, with_len) = match (l[0].as_opt(), l[1].as_bool()) {
+        (Some(ae), Some(w)) => (ae, w),
+        _ => return X::bad(),
+    };
+    let hdrs = match header_list(ae, &[]) {
+        Some(h) => h,
+        None => return X::bad(),
+    };
+    let cfg = X::L(vec![X::L(vec![X::b("cache"), X::bool(true)]), X::L(vec![X::b("disable_ims"), X::bool(true)])]);
+    let customize = move |_kv: &[(String, X)], host: &mut Host, _sh: &Arc<Shared>| {
+        host.extensions.add_prepare_single(
+            "/s",
+            prepare!(_req, _host, _path, _addr, move |with_len: bool| {
+                let resp = Response::builder().status(200).header("content-type", "text/html").body(Bytes::from_static(b"head of the stream")).unwrap();
+                let fut = response_pipe_fut!(_pipe, _host, {});
+                let r = FatResponse::new(resp, comprash::ServerCachePreference::None);
+                if *with_len {
+                    r.with_future_and_len(fut, 18)
+                } else {
+                    r.with_future(fut)
+                }
+            }),
+        );
+    };
+    let built = match c00pipe::build_host(&cfg, Some(&customize)) {
+        Some(b) => b,
+        None => return X::bad(),
+    };
+    let res = c00pipe::block_on(async {
+        let host = built.hosts.get_host(&built.host_name)?;
+        let mut q = c00pipe::make_request(&built.host_name, b"GET", b"/s", &hdrs, b"")?;
+        let r = kvarn::handle_cache(&mut q, c00pipe::sockaddr(1), host).await;
+        Some(X::L(vec![
+            X::n(r.response.status().as_u16()),
+            X::bool(r.future.is_some()),
+            X::opt(r.response.headers().get("content-encoding").map(|v| X::b(v.as_bytes()))),
+            X::n(r.response.body().len()),
+        ]))
     });
     res.unwrap_or_else(X::bad)
 }
@@ -256,6 +516,8 @@ pub fn dispatch(comp: &str, x: &X) -> Option<X> {
         "neg.list_header" => crate::guarded(|| list_header(x)),
         "neg.mime" => crate::guarded(|| mime(x)),
         "neg.pipe" => crate::guarded(|| pipe(x)),
+        "neg.stress" => crate::guarded(|| stress(x)),
+        "neg.stream" => crate::guarded(|| stream(x)),
         _ => return None,
     })
 }
